@@ -661,6 +661,12 @@ from ..selftest import Seed, unparse_seed  # noqa: E402
 
 _EL = "src/odfdo/element.py"
 SEEDS = [
+    Seed("Element.xpath drops empty string results", "fault", "src/odfdo/element.py",
+         "                if isinstance(obj, (str, bytes)):\n                    result.append(EText(obj))",
+         "                if isinstance(obj, (str, bytes)):\n                    if obj:\n                        result.append(EText(obj))", "R16l"),
+    Seed("Element.xpath tests for an element first", "neutral", "src/odfdo/element.py",
+         "                if isinstance(obj, (str, bytes)):\n                    result.append(EText(obj))\n                elif isinstance(obj, _Element):\n                    result.append(Element.from_tag(obj))",
+         "                if isinstance(obj, _Element):\n                    result.append(Element.from_tag(obj))\n                elif isinstance(obj, (str, bytes)):\n                    result.append(EText(obj))"),
     Seed("inner_text takes lxml's itertext() when all children are spans", "fault", _EL,
          '        return self.text + "".join(e._text_tail for e in self.children)',
          '        if len(self.__element) and all(c.tag.endswith("}span") for c in self.__element):\n            return "".join(self.__element.itertext())\n        return self.text + "".join(e._text_tail for e in self.children)', "R05d"),
